@@ -50,8 +50,12 @@ func callsSource(i int, s callsScen) string {
 		pkg = s.Dir
 	}
 	ext := "E"
+	if i%2 == 1 {
+		// every other program selects the function by a pattern; XE (below) ends with a match but is not one
+		ext = "E.*"
+	}
 	if s.ExtId {
-		ext = "E Canon"
+		ext += " Canon"
 	}
 	wrap := ""
 	if s.Wrap == "using" {
@@ -110,6 +114,7 @@ func callsSource(i int, s callsScen) string {
 	} else {
 		fmt.Fprintf(&b, "func E(%s) string { return %s }\n", eparams, mark)
 	}
+	b.WriteString("\n// XE must never be selected by the pattern E.* (a match has to start at the beginning of the name)\nfunc XE(v int) string { return \"X\" }\n")
 	b.WriteString("\nfunc Canon(s string) string {\n\tif s == \"\" {\n\t\ts = \"z\"\n\t}\n\treturn \"C(\" + s + \")\"\n}\n\nfunc Tok(v int) string { return tok(v) }\n")
 	names := []string{"F", "G"}
 	var meths strings.Builder
